@@ -39,13 +39,35 @@ Theorem C04_step_simulation :
 Proof. exact step_sim. Qed.
 Print Assumptions C04_step_simulation.
 
-(* The rdflib decoder does the same on RDF 1.1 streams (it is a second copy that agrees row by row). *)
-Theorem C04_rdflib_agrees :
+(* The rdflib decoder (a second copy, with rdflib's term constructors) hands out, on RDF 1.1 streams, the VIEW of what the generic
+   one hands out: the same terms except that rdflib's Literal constructor has rewritten the lexical form of xsd:token /
+   xsd:normalizedString literals (AgreeProofs.rview) ... *)
+Theorem C04_rdflib_is_view_of_generic :
   forall (ak : adapter_kind) (po : poptions) (fs : list frame) (st : dstate),
     forallb (fun f => forallb row_rdf11 (f_rows f)) fs = true ->
-    decode_frames Generic ak po fs st = decode_frames Rdflib ak po fs st.
+    decode_frames Rdflib ak po fs (vst st) = map fview (decode_frames Generic ak po fs st).
+Proof. exact decode_frames_view. Qed.
+Print Assumptions C04_rdflib_is_view_of_generic.
+
+(* ... hence exactly the statements the stream denotes wherever those are terms rdflib can hold ... *)
+Theorem C04_rdflib_agrees :
+  forall (ak : adapter_kind) (po : poptions) (fs : list frame) (st : dstate),
+    forallb (fun f => forallb row_rdf11 (f_rows f)) fs = true -> vst st = st ->
+    Forall result_fixed (decode_frames Generic ak po fs st) ->
+    decode_frames Rdflib ak po fs st = decode_frames Generic ak po fs st.
 Proof. exact decode_frames_agree. Qed.
 Print Assumptions C04_rdflib_agrees.
+
+(* ... and NOT always (known finding rdflib-whitespace-facet): the valid RDF 1.1 stream holding "  a"^^xsd:token denotes that
+   literal, the generic reader returns it, the rdflib reader returns "a"^^xsd:token.  The witness, replayed on the implementation,
+   is findings/C04_C15_rdflib_whitespace_facet.py. *)
+Theorem C04_rdflib_reader_refuted :
+  exists st, decoder_new token_po = Ok st /\
+    forallb (fun f => forallb row_rdf11 (f_rows f)) token_stream = true /\
+    decode_frames Generic ATriples token_po token_stream st = [([], [ETriple (TBnode [115]) (TBnode [112]) (TLit [32; 32; 97] None (Some xsd_token))], None)] /\
+    decode_frames Rdflib ATriples token_po token_stream st = [([], [ETriple (TBnode [115]) (TBnode [112]) (TLit [97] None (Some xsd_token))], None)].
+Proof. exact readers_differ_on_token_literals. Qed.
+Print Assumptions C04_rdflib_reader_refuted.
 
 (* non-vacuity: a concrete stream with an eviction-free but non-trivial shape is Valid *)
 Example a_valid_stream :
